@@ -8,9 +8,9 @@ use crate::util::*;
 use arrow_arith::{aggregate, boolean, numeric};
 use arrow_array::cast::AsArray;
 use arrow_array::types::*;
-use arrow_array::{Array, ArrayRef, ArrowPrimitiveType, BooleanArray, Datum, PrimitiveArray, Scalar};
+use arrow_array::{Array, ArrayRef, ArrowNumericType, ArrowPrimitiveType, BooleanArray, Datum, PrimitiveArray, Scalar};
 use arrow_buffer::{i256, BooleanBuffer, NullBuffer, ScalarBuffer};
-use arrow_schema::ArrowError;
+use arrow_schema::{ArrowError, DataType};
 use num_bigint::{BigInt, Sign};
 use num_traits::{One, Signed, Zero};
 
@@ -147,11 +147,103 @@ fn run_i256(a: &Args) -> Args {
     }
 }
 
+macro_rules! dec_dispatch {
+    ($bits:expr, $f:ident, $($arg:expr),*) => {
+        match $bits {
+            32 => $f::<Decimal32Type>($($arg),*), 64 => $f::<Decimal64Type>($($arg),*),
+            128 => $f::<Decimal128Type>($($arg),*), 256 => $f::<Decimal256Type>($($arg),*),
+            _ => panic!("decimal width"),
+        }
+    };
+}
+
+/// header: [bits; op; l_scalar; r_scalar; l_hasnulls; r_hasnulls; p1; s1; p2; s2; l_off; r_off]
+fn run_decimal<T: DecimalType>(a: &Args) -> Args where T::Native: Nat {
+    let l = build::<T>(&a[1], hb(a, 4).then_some(&a[2]), h(a, 10) as usize)
+        .with_precision_and_scale(h(a, 6) as u8, h(a, 7) as i8).expect("valid l type");
+    let r = build::<T>(&a[3], hb(a, 5).then_some(&a[4]), h(a, 11) as usize)
+        .with_precision_and_scale(h(a, 8) as u8, h(a, 9) as i8).expect("valid r type");
+    let op = match h(a, 1) { 0 => 1, 1 => 3, 2 => 5, 3 => 6, _ => 7 };
+    let res = call_binop(op, l, hb(a, 2), r, hb(a, 3));
+    let ps = match &res {
+        Ok(arr) => match arr.data_type() {
+            DataType::Decimal32(p, s) | DataType::Decimal64(p, s) | DataType::Decimal128(p, s) | DataType::Decimal256(p, s) => Some((*p, *s)),
+            _ => panic!("result type"),
+        },
+        Err(_) => None,
+    };
+    let mut out = out_prim::<T>(res);
+    if let Some((p, s)) = ps { out.push(vec![BigInt::from(p), BigInt::from(s)]); }
+    out
+}
+
+fn build_bool(vals: &Group, valid: Option<&Group>, off: usize) -> BooleanArray {
+    let mut v: Vec<bool> = (0..off).map(|i| i % 5 < 2).collect();
+    v.extend(vals.iter().map(|x| !x.is_zero()));
+    let nulls = valid.map(|bits| {
+        let mut b: Vec<bool> = (0..off).map(|i| i % 3 != 1).collect();
+        b.extend(bits.iter().map(|x| !x.is_zero()));
+        NullBuffer::from(b)
+    });
+    BooleanArray::new(BooleanBuffer::from(v), nulls).slice(off, vals.len())
+}
+fn out_bool(r: Result<BooleanArray, ArrowError>) -> Args {
+    match r {
+        Err(e) => err(err_kind(&e)),
+        Ok(b) => vec![(0..b.len()).map(|i| BigInt::from(b.is_valid(i) as u8)).collect(),
+                      (0..b.len()).map(|i| BigInt::from((b.is_valid(i) && b.value(i)) as u8)).collect()],
+    }
+}
+/// header: [op; l_hasnulls; r_hasnulls; l_off; r_off]
+fn run_bool(a: &Args) -> Args {
+    let l = build_bool(&a[1], hb(a, 1).then_some(&a[2]), h(a, 3) as usize);
+    let r = build_bool(&a[3], hb(a, 2).then_some(&a[4]), h(a, 4) as usize);
+    out_bool(match h(a, 0) {
+        0 => boolean::and_kleene(&l, &r), 1 => boolean::or_kleene(&l, &r),
+        2 => boolean::and(&l, &r), 3 => boolean::or(&l, &r), 4 => boolean::and_not(&l, &r),
+        5 => boolean::not(&l), 6 => boolean::is_null(&l), _ => boolean::is_not_null(&l),
+    })
+}
+
+macro_rules! agg_dispatch {
+    ($signed:expr, $bits:expr, $f:ident, $($arg:expr),*) => {
+        match ($signed, $bits) {
+            (true, 128) => $f::<Decimal128Type>($($arg),*), (true, 256) => $f::<Decimal256Type>($($arg),*),
+            (s, b) => int_dispatch!(s, b, $f, $($arg),*),
+        }
+    };
+}
+/// header: [signed; bits; aggop; hasnulls; off; log2 lanes (model only)]
+fn run_agg<T: ArrowNumericType>(a: &Args) -> Args
+where T::Native: Nat + std::ops::BitAnd<Output = T::Native> + std::ops::BitOr<Output = T::Native> + std::ops::BitXor<Output = T::Native> {
+    let x = build::<T>(&a[1], hb(a, 3).then_some(&a[2]), h(a, 4) as usize);
+    let o = |r: Option<T::Native>| vec![r.map(|z| vec![z.to_big()]).unwrap_or_default()];
+    match h(a, 2) {
+        0 => o(aggregate::sum(&x)),
+        1 => match aggregate::sum_checked(&x) { Ok(r) => o(r), Err(e) => err(err_kind(&e)) },
+        2 => o(aggregate::min(&x)),
+        3 => o(aggregate::max(&x)),
+        4 => o(aggregate::bit_and(&x)),
+        5 => o(aggregate::bit_or(&x)),
+        _ => o(aggregate::bit_xor(&x)),
+    }
+}
+/// header: [op; hasnulls; off]
+fn run_boolagg(a: &Args) -> Args {
+    let x = build_bool(&a[1], hb(a, 1).then_some(&a[2]), h(a, 2) as usize);
+    let r = if h(a, 0) == 0 { aggregate::bool_and(&x) } else { aggregate::bool_or(&x) };
+    vec![r.map(|b| vec![BigInt::from(b as u8)]).unwrap_or_default()]
+}
+
 pub fn run(op: &str, a: &Args) -> Option<Args> {
     Some(match op {
         "c12.arith" => int_dispatch!(hb(a, 0), h(a, 1), run_arith, a),
         "c12.neg" => int_dispatch!(hb(a, 0), h(a, 1), run_neg, a),
         "c12.i256" => run_i256(a),
+        "c12.decimal" => dec_dispatch!(h(a, 0), run_decimal, a),
+        "c12.bool" => run_bool(a),
+        "c12.agg" => agg_dispatch!(hb(a, 0), h(a, 1), run_agg, a),
+        "c12.boolagg" => run_boolagg(a),
         _ => return None,
     })
 }
@@ -387,6 +479,189 @@ fn gen_i256(tier: &str, r: &mut Rng, emit: &mut dyn FnMut(Case)) {
     }
 }
 
+// ---- boolean kernels
+fn gen_bool(tier: &str, r: &mut Rng, emit: &mut dyn FnMut(Case)) {
+    let thorough = tier == "thorough";
+    let mut lens: Vec<usize> = (0..=200).collect();
+    if !thorough { lens = (0..=10).chain(60..=70).chain(120..=134).chain([191, 192, 193, 200]).collect(); }
+    for &n in &lens {
+        for op in 0..8i64 {
+            for _ in 0..(if thorough { 6 } else { 2 }) {
+                let bits = |r: &mut Rng, n: usize, mode: usize| -> Vec<bool> {
+                    (0..n).map(|i| match mode { 0 => false, 1 => true, 2 => i % 2 == 0, 3 => r.chance(1, 10), 4 => !r.chance(1, 10), _ => r.bool() }).collect()
+                };
+                let (lm, rm, lnm, rnm) = (r.below(7), r.below(7), r.below(7), r.below(7));
+                let rn = if op < 5 && r.chance(1, 40) { n + 1 } else { n };
+                let lv = bits(r, n, lm); let rv = bits(r, rn, rm);
+                let lhn = r.chance(2, 3); let rhn = r.chance(2, 3);
+                let lnull = bits(r, n, 1 + lnm % 6); let rnull = bits(r, rn, 1 + rnm % 6);
+                let lnull = if lnm == 0 { vec![false; n] } else { lnull };
+                let (lo, ro) = (if r.chance(1, 4) { 0 } else { r.below(71) }, if r.chance(1, 4) { 0 } else { r.below(71) });
+                let hdr: Group = vec![op.into(), (lhn as i64).into(), (rhn as i64).into(), lo.into(), ro.into()];
+                let args = vec![hdr, gbools(lv), if lhn { gbools(lnull) } else { vec![] }, gbools(rv), if rhn { gbools(rnull) } else { vec![] }];
+                emit(Case::new("c12.bool", args, &["c12.bool", "c12.bool.spec"],
+                    format!("bool op{} n{} nl{}{} o{}{} mm{}", op, len_class(n), lhn as u8, rhn as u8, lo % 8, ro % 8, (rn != n) as u8)));
+            }
+        }
+        for op in 0..2i64 {
+            for _ in 0..(if thorough { 8 } else { 3 }) {
+                // mostly-true / mostly-false vectors so that both answers occur, false or true only under nulls
+                let mode = r.below(6);
+                let mut v: Vec<bool> = (0..n).map(|_| match mode { 0 => true, 1 => false, 2 => !r.chance(1, 60), 3 => r.chance(1, 60), _ => r.bool() }).collect();
+                let hn = r.chance(2, 3);
+                let nm = r.below(5);
+                let mut valid: Vec<bool> = (0..n).map(|_| match nm { 0 => true, 1 => false, 2 => !r.chance(1, 10), _ => r.bool() }).collect();
+                if n > 0 && r.chance(1, 3) {
+                    // the only deciding bit sits under a null (must be ignored) or is the single valid one
+                    let p = r.below(n);
+                    v[p] = op == 1; for i in 0..n { if i != p { v[i] = op == 0; } }
+                    valid[p] = r.bool();
+                }
+                let off = if r.chance(1, 4) { 0 } else { r.below(71) };
+                let hdr: Group = vec![op.into(), (hn as i64).into(), off.into()];
+                emit(Case::new("c12.boolagg", vec![hdr, gbools(v), if hn { gbools(valid) } else { vec![] }], &["c12.boolagg.spec"],
+                    format!("bagg op{} n{} nl{} o{} m{}", op, len_class(n), hn as u8, off % 8, mode)));
+            }
+        }
+    }
+}
+
+// ---- aggregates
+fn gen_agg(tier: &str, r: &mut Rng, emit: &mut dyn FnMut(Case)) {
+    let thorough = tier == "thorough";
+    let types: [(bool, u32); 10] = [(true, 8), (true, 16), (true, 32), (true, 64), (false, 8), (false, 16), (false, 32), (false, 64), (true, 128), (true, 256)];
+    for (signed, bits) in types {
+        let bnd = boundary(signed, bits);
+        let mut lens: Vec<usize> = if thorough { (0..=200).collect() } else { (0..=9).chain([15, 16, 17, 31, 32, 33, 63, 64, 65, 95, 96, 97, 127, 128, 129, 191, 192, 193, 200]).collect() };
+        lens.extend([255, 256, 257, 1000]);
+        for &n in &lens {
+            for aggop in 0..7i64 {
+                for _ in 0..(if thorough { 3 } else { 1 }) {
+                    let vm = r.below(5); // 0 boundary-dense, 1 small, 2 small with one extreme, 3 random, 4 cancelling extremes
+                    let vals: Vec<BigInt> = (0..n).map(|i| match vm {
+                        0 => rand_val(r, signed, bits, &bnd),
+                        1 => BigInt::from(r.range(if signed { -3 } else { 0 }, 3)),
+                        2 => if r.chance(1, (n as u32).max(1)) { if r.bool() { tmax(signed, bits) } else { tmin(signed, bits) } } else { BigInt::from(r.range(0, 2)) },
+                        3 => rand_val(r, signed, bits, &bnd[..1]),
+                        _ => if i % 2 == 0 { tmax(signed, bits) - BigInt::from(r.below(3)) } else if signed { -tmax(signed, bits) + BigInt::from(r.below(3)) } else { BigInt::from(r.below(2)) },
+                    }).collect();
+                    let nm = r.below(7); // 0,1 no buffer; 2 buffer all valid; 3 sparse; 4 dense; 5 all null; 6 single valid
+                    let mut valid: Vec<bool> = (0..n).map(|_| match nm { 3 => !r.chance(1, 12), 4 => r.bool(), 5 | 6 => false, _ => true }).collect();
+                    if nm == 6 && n > 0 { let p = r.below(n); valid[p] = true; }
+                    let hn = nm >= 2;
+                    let off = if r.chance(1, 3) { 0 } else { r.below(71) };
+                    let hdr: Group = vec![(signed as i64).into(), bits.into(), aggop.into(), (hn as i64).into(), off.into(), r.below(7).into()];
+                    let models: &[&str] = if aggop < 4 { &["c12.agg", "c12.agg.spec"] } else { &["c12.agg.spec"] };
+                    emit(Case::new("c12.agg", vec![hdr, vals, if hn { gbools(valid) } else { vec![] }], models,
+                        format!("agg {}{} op{} n{} nm{} vm{}", if signed { 'i' } else { 'u' }, bits, aggop, len_class(n), nm, vm)));
+                }
+            }
+        }
+    }
+}
+
+// ---- decimals
+fn dec_max(bits: u32) -> i64 { match bits { 32 => 9, 64 => 18, 128 => 38, _ => 76 } }
+/// generator-side oracle of one decimal row (shapes inputs only): 0 = fine, else error kind
+fn dec_row_error(bits: u32, op: i64, lm: &BigInt, rm: &BigInt, x: &BigInt, y: &BigInt) -> i64 {
+    let fits = |z: &BigInt| in_range(true, bits, z);
+    let a = x * lm; if !fits(&a) { return E_OVERFLOW; }
+    let b = y * rm; if !fits(&b) { return E_OVERFLOW; }
+    match op {
+        0 => if fits(&(a + b)) { 0 } else { E_OVERFLOW },
+        1 => if fits(&(a - b)) { 0 } else { E_OVERFLOW },
+        2 => if fits(&(a * b)) { 0 } else { E_OVERFLOW },
+        _ => if b.is_zero() { E_DIVZERO } else if a == tmin(true, bits) && b == BigInt::from(-1) { E_OVERFLOW } else { 0 },
+    }
+}
+fn pow10(k: i64) -> BigInt { let mut z = BigInt::one(); for _ in 0..k { z *= 10; } z }
+
+fn gen_decimal(tier: &str, r: &mut Rng, emit: &mut dyn FnMut(Case)) {
+    let thorough = tier == "thorough";
+    for bits in [32u32, 64, 128, 256] {
+        let maxp = dec_max(bits);
+        let bnd = boundary(true, bits);
+        for op in 0..5i64 {
+            let mut made = 0;
+            let want = if thorough { 1500 } else { 150 };
+            let mut tries = 0;
+            while made < want && tries < want * 50 {
+                tries += 1;
+                let p1 = 1 + r.below(maxp as usize) as i64;
+                let p2 = if r.chance(1, 3) { p1 } else { 1 + r.below(maxp as usize) as i64 };
+                let sc = |r: &mut Rng, p: i64| -> i64 { match r.below(4) { 0 => 0, 1 => p, 2 => r.range(-12, p.min(maxp)), _ => r.range(0, p) } };
+                let s1 = sc(r, p1);
+                let s2 = if r.chance(1, 3) && s1 <= p2 { s1 } else { sc(r, p2) };
+                // documented result type and multipliers (generator-side copy of the documented rules)
+                let (rp_doc, rs, el, er) = match op {
+                    0 | 1 => { let rs = s1.max(s2); (rs + (p1 - s1).max(p2 - s2) + 1, rs, rs - s1, rs - s2) }
+                    2 => (p1 + p2 + 1, s1 + s2, 0, 0),
+                    3 => { let rs = (s1 + 4).min(maxp); let e = rs - s1 + s2; (p1 - s1 + s2 + rs, rs, e.max(0), (-e).max(0)) }
+                    _ => { let rs = s1.max(s2); ((p1 - s1).min(p2 - s2) + rs, rs, rs - s1, rs - s2) }
+                };
+                // the documented precision must be a positive number (the `as u8` of a non-positive i8 is outside the documented rules)
+                if rp_doc < 1 || rp_doc > 127 { continue; }
+                let (lm, rm) = (pow10(el), pow10(er));
+                let mult_ok = in_range(true, bits, &lm) && in_range(true, bits, &rm);
+                // KNOWN-FINDING candidate: decimal `rem` computes its rescaling multipliers with pow_wrapping;
+                // when 10^(max(s1,s2)-s_i) does not fit the native type the kernel silently uses a wrapped multiplier
+                // (wrong remainder, no error) instead of reporting overflow as add/sub do.  Excluded here.
+                if op == 4 && !mult_ok { continue; }
+                if !mult_ok && !r.chance(1, 10) { continue; }
+                if op == 2 && rs > maxp && !r.chance(1, 10) { continue; }
+                made += 1;
+                let layout = r.below(8); // 0..4 array/array, 5 scalar left, 6 scalar right, 7 both scalar
+                let n = match r.below(6) { 0 => r.below(3), 1 => 63 + r.below(3), _ => r.below(100) };
+                let (ls, rsc) = match layout { 5 => (true, false), 6 => (false, true), 7 => (true, true), _ => (false, false) };
+                let (ln, rn) = (if ls { 1 } else { n }, if rsc { 1 } else { n });
+                let vmode = r.below(4); // 0 within precision, 1 small, 2 native boundary, 3 within precision near the edge
+                let val = |r: &mut Rng, p: i64| -> BigInt {
+                    let lim = pow10(p.min(maxp)) - 1;
+                    let z = match vmode {
+                        0 => { let k = r.below(p as usize + 1) as i64; let m = pow10(k); let mut z = BigInt::zero(); for _ in 0..5 { z = (z << 64) + BigInt::from(r.next()); } z % (m + 1) }
+                        1 => BigInt::from(r.range(0, 20)),
+                        2 => return rand_val(r, true, bits, &bnd),
+                        _ => &lim - BigInt::from(r.below(3)),
+                    };
+                    let z = if z > lim { lim } else { z };
+                    if r.bool() { -z } else { z }
+                };
+                let mk = |r: &mut Rng, len: usize, p: i64, scalar: bool| -> Side {
+                    let vals: Vec<BigInt> = (0..len).map(|_| val(r, p)).collect();
+                    let nm = r.below(5);
+                    let valid: Vec<bool> = (0..len).map(|_| match nm { 2 => !r.chance(1, 10), 3 => r.bool(), 4 => false, _ => true }).collect();
+                    Side { vals, valid, hasnulls: nm >= 1, scalar, off: if r.chance(1, 3) { 0 } else { r.below(71) } }
+                };
+                let mut l = mk(r, ln, p1, ls);
+                let mut rr = mk(r, rn, p2, rsc);
+                let keep_errors = r.chance(1, 5);
+                let mut has_err = !mult_ok || (op == 2 && rs > maxp);
+                if mult_ok {
+                    for i in 0..ln.max(rn) {
+                        let (li, ri) = (if ls { 0 } else { i }, if rsc { 0 } else { i });
+                        if li >= ln || ri >= rn { continue; }
+                        if (l.hasnulls && !l.valid[li]) || (rr.hasnulls && !rr.valid[ri]) { continue; }
+                        let e = dec_row_error(bits, op, &lm, &rm, &l.vals[li], &rr.vals[ri]);
+                        if e == 0 { continue; }
+                        // rem: MIN % -1 is reported as overflow by mod_checked although the remainder 0 is representable
+                        // (outside every declared precision); never generated as a valid row
+                        let forbidden = op == 4 && e == E_OVERFLOW && l.vals[li].clone() * &lm == tmin(true, bits) && rr.vals[ri].clone() * &rm == BigInt::from(-1);
+                        if keep_errors && !forbidden { has_err = true; continue; }
+                        if !rsc { rr.hasnulls = true; rr.valid[ri] = false; }
+                        else if !ls { l.hasnulls = true; l.valid[li] = false; }
+                        else if forbidden { rr.vals[ri] = BigInt::one(); } else { has_err = true; }
+                    }
+                }
+                let (lv, lnn) = l.groups(); let (rv, rnn) = rr.groups();
+                let hdr: Group = vec![bits.into(), op.into(), (ls as i64).into(), (rsc as i64).into(), (l.hasnulls as i64).into(), (rr.hasnulls as i64).into(),
+                    p1.into(), s1.into(), p2.into(), s2.into(), l.off.into(), rr.off.into()];
+                emit(Case::new("c12.decimal", vec![hdr, lv, lnn, rv, rnn], &["c12.decimal", "c12.decimal.spec"],
+                    format!("dec{} op{} lay{} eq{} el{} er{} v{} e{}", bits, op, layout, (s1 == s2) as u8, el.min(3), er.min(3), vmode, has_err as u8)));
+            }
+        }
+    }
+}
+
 pub fn generate(tier: &str, r: &mut Rng, emit: &mut dyn FnMut(Case)) {
     let thorough = tier == "thorough";
     // --- integer kernels
@@ -422,4 +697,7 @@ pub fn generate(tier: &str, r: &mut Rng, emit: &mut dyn FnMut(Case)) {
         }
     }
     gen_i256(tier, r, emit);
+    gen_bool(tier, r, emit);
+    gen_agg(tier, r, emit);
+    gen_decimal(tier, r, emit);
 }
